@@ -6,10 +6,10 @@
   model are the field's (`scalarOfField`), `sqrt` is a parameter (`SqrtFn`) constrained only by
   `LawfulSqrt` where it is used.  Proofs: `Gama/Lemmas/Ls/Chol*.lean`.
 -/
-import Gama.Lemmas.Ls.CholIsLS
+import Gama.Lemmas.Ls.CholSingular
 import Gama.Lemmas.Ls.CholExample
 namespace Gama.Props.C01
-open Gama Gama.Ls Gama.LS Matrix
+open Gama Gama.Ls Gama.LS Gama.Ls.Chol Matrix
 
 set_option linter.unusedSectionVars false
 
@@ -42,5 +42,84 @@ example : ∃ a, cholSolve Ex.pReg = .ok a ∧ a.defect = 0 ∧ a.x = #[7/9, 13/
   obtain ⟨a, h1, h2⟩ := Ex.ok_of_toOption h
   simp only [Prod.mk.injEq] at h2
   exact ⟨a, h1, h2.1, h2.2.1, h2.2.2⟩
+
+/-- **general case** (any defect).  Hypotheses — the property's "rank numerically unambiguous" for
+    this algorithm and what the code needs of `sqrt`:
+    * `UnambiguousF (cholFact p)`: the pivot the Cholesky stage rejects (`≤ s_tol`) is exactly 0;
+    * `GsSqrtExact p`: `sqrt` is exact on the pivots the Gram–Schmidt stage normalises with
+      (implied by `LawfulSqrt`, see `C01_cholesky_sqrt_of_lawful`);
+    * the regularisation list has no duplicate index (`dot` runs over the LIST; with a duplicate the
+      code minimises a differently weighted norm).
+    Then `x, r, rtr` are a least-squares solution of `(A, b, 1)` with `x ⟂_S ker A`, i.e. `x` has the
+    smallest `Σ_{i∈S} x_i²` among all minimisers (`C01_spec_min_norm`).  The proof goes through:
+    the Schur complement of a Gram matrix with largest diagonal 0 is 0 (positivity), so
+    `nullity = n − rank A` and `N = L D Lᵀ` over the accepted pivots; the columns of `G` are a basis of
+    `ker A`; modified Gram–Schmidt over the rows in `S` keeps them a basis, makes them S-orthonormal
+    and `x = x0 − Σ (x0·g)_S g` S-orthogonal to all of them. -/
+theorem C01_cholesky_singular (p : Problem K) (hU : UnambiguousF (cholFact p)) (hsq : GsSqrtExact p)
+    (hnd : ∀ S, regList p.n p.reg = some S → S.Nodup) (a : Answer K) (h : cholSolve p = .ok a) :
+    IsLSSolution p.A p.b 1 p.S (toVec p.n a.x) (toVec p.m a.r) a.rtr :=
+  cholSolve_isLS p hU hsq hnd a h
+
+/-- the lawful square root of DESIGN §3.1 gives `GsSqrtExact` for every problem -/
+theorem C01_cholesky_sqrt_of_lawful [LawfulSqrt K] (p : Problem K) : GsSqrtExact p :=
+  GsSqrtExact.of_lawful p
+
+/-- with "none"/"all" configured the list is `1..n`: no duplicates -/
+theorem C01_cholesky_nodup_all (p : Problem K) (hr : p.reg = .none ∨ p.reg = .all) :
+    ∀ S, regList p.n p.reg = some S → S.Nodup := by
+  intro S hS
+  rcases hr with hr | hr
+  · rw [hr] at hS; simp only [regList, Option.some.injEq] at hS; subst hS; exact List.nodup_range
+  · rw [hr] at hS; simp only [regList, Option.some.injEq] at hS; subst hS; exact List.nodup_range
+
+/-- **refusal** (C02): under `Unambiguous` for both stages (`GsUnamb`: every S-norm² the
+    Gram–Schmidt loop tests is 0 or ≥ `s_tol`) the model answers only if `S` resolves the defect, and
+    when it throws, it throws `BadRegularization` and `S` does NOT resolve the defect (the only
+    other error of the model is its own `NotModelled` for an index outside `1..n` in the list) -/
+theorem C02_refusal_chol (p : Problem K) (hU : UnambiguousF (cholFact p)) (hsq : GsSqrtExact p)
+    (hun : GsUnamb p) :
+    (∀ a, cholSolve p = .ok a → Resolves p.A p.S) ∧
+    (∀ e, cholSolve p = .error e →
+      (e = .BadRegularization ∧ ¬ Resolves p.A p.S) ∨ (e = .NotModelled ∧ regList p.n p.reg = none)) :=
+  chol_refusal p hU hsq hun
+
+/-- non-vacuity (singular, all unknowns regularised): the 4-point levelling loop, defect 1; the
+    rejected pivot is exactly 0, the Gram–Schmidt pivot is 4 with `sqrt 4 = 2` exact; the model
+    returns the minimum-norm solution `x = (−13/8, −7/8, 7/8, 13/8)` (`Σ x = 0`), `vᵀv = 1/4` -/
+example : UnambiguousF (cholFact (Ex.pSing4 .none)) ∧ GsSqrtExact (Ex.pSing4 .none) ∧ GsUnamb (Ex.pSing4 .none)
+    ∧ (∀ S, regList (Ex.pSing4 .none).n (Ex.pSing4 .none).reg = some S → S.Nodup)
+    ∧ ∃ a, cholSolve (Ex.pSing4 .none) = .ok a ∧ a.defect = 1
+        ∧ a.x = #[-13/8, -7/8, 7/8, 13/8] ∧ a.rtr = 1/4 := by
+  have hr : (cholFact (Ex.pSing4 .none)).rej = some 0 := by decide +kernel
+  have hS : ∀ S, regList (Ex.pSing4 .none).n (Ex.pSing4 .none).reg = some S → S = List.range 4 := by
+    intro S h
+    have : regList (Ex.pSing4 .none).n (Ex.pSing4 .none).reg = some (List.range 4) := rfl
+    rw [this] at h
+    exact (Option.some.inj h).symm
+  have hb := gsOKb_spec (K := ℚ) (Ex.pSing4 .none).n (cholFact (Ex.pSing4 .none)).nullity (List.range 4)
+    (cholFact (Ex.pSing4 .none)).nullity 0 _ _ (by decide +kernel :
+      gsOKb (Ex.pSing4 .none).n (cholFact (Ex.pSing4 .none)).nullity (List.range 4)
+        (cholFact (Ex.pSing4 .none)).nullity 0 (Dn.pmk ((cholFact (Ex.pSing4 .none)).nullity + 1) id)
+        (gInit (Ex.pSing4 .none).n ((Ex.pSing4 .none).n - (cholFact (Ex.pSing4 .none)).nullity)
+          (cholFact (Ex.pSing4 .none)).nullity (cholFact (Ex.pSing4 .none)).perm (cholFact (Ex.pSing4 .none)).mat
+          (solveX0 (Ex.pSing4 .none).n ((Ex.pSing4 .none).n - (cholFact (Ex.pSing4 .none)).nullity)
+            (cholFact (Ex.pSing4 .none)).perm (cholFact (Ex.pSing4 .none)).mat
+            (normalRhs (Ex.pSing4 .none).m (Ex.pSing4 .none).n (Ex.pSing4 .none).dense (Ex.pSing4 .none).rhs))) = true)
+  refine ⟨?_, ?_, ?_, ?_, ?_⟩
+  · intro t ht; rw [hr] at ht; left; exact (Option.some.inj ht).symm
+  · intro S h; rw [hS S h]; exact hb.1
+  · intro S h; rw [hS S h]; exact hb.2
+  · intro S h; rw [hS S h]; exact List.nodup_range
+  · have h : (cholSolve (Ex.pSing4 .none)).toOption.map (fun a => (a.defect, a.x, a.rtr))
+        = some (1, #[-13/8, -7/8, 7/8, 13/8], 1/4) := by decide +kernel
+    obtain ⟨a, h1, h2⟩ := Ex.ok_of_toOption h
+    simp only [Prod.mk.injEq] at h2
+    exact ⟨a, h1, h2.1, h2.2.1, h2.2.2⟩
+
+/-- non-vacuity (refusal): the same network with an EMPTY regularisation list — `S = ∅` does not
+    resolve the defect — is refused with `BadRegularization` (kernel evaluation) -/
+example : (cholSolve (Ex.pSing4 (.subset []))).map (fun _ => ()) = .error .BadRegularization := by
+  decide +kernel
 
 end Gama.Props.C01
